@@ -259,7 +259,10 @@ func (*regReporter).Flush returns (err)
 // the register command
 // ---------------------------------------------------------------------------------------------
 func NewRegReporter returns (r)
-  props C02 C08 C17
+  props C02 C08 C17 C07
+  // which register is shown follows the flags (C02 / C07): -s X selects the single-element register (grouped by food with -g),
+  // -f the single-food register, otherwise the old or the template register
+  ensures @mode [C02 C07] (len(c.SingleElement) > 0 && c.ElementGroupByFood ==> typeis(r, "*register.elementByFoodReporter")) && (len(c.SingleElement) > 0 && !c.ElementGroupByFood ==> typeis(r, "*register.singleReporter")) && (len(c.SingleElement) == 0 && len(c.SingleFood) > 0 ==> typeis(r, "*register.singleFoodReporter")) && (len(c.SingleElement) == 0 && len(c.SingleFood) == 0 && c.UseOldRegReporter ==> typeis(r, "*register.regReporter")) && (len(c.SingleElement) == 0 && len(c.SingleFood) == 0 && !c.UseOldRegReporter ==> typeis(r, "*register.regReporterTemplate"))
   requires @book DBIs(db) && TreeInv()
   modifies ghost(bufSink, bufSticky, accP, accN, accH)
   ensures @reporter RepInv(r) && fresh(RepBuf(r)) && RepBookBelow(r, alloc())
